@@ -146,12 +146,13 @@ pub enum Defect {
     DuplicateCell,
     SatelliteWithoutCells,
     CellsWithoutSatellite,
+    SatelliteSetMismatch,
     TooManyCells,
     Empty,
 }
 pub const DEFECTS: &[Defect] = &[
     Defect::Sat0, Defect::Sat65, Defect::Sat255, Defect::UnknownSignal, Defect::DuplicateSatellite, Defect::DuplicateCell, Defect::SatelliteWithoutCells, Defect::CellsWithoutSatellite,
-    Defect::TooManyCells, Defect::Empty,
+    Defect::SatelliteSetMismatch, Defect::TooManyCells, Defect::Empty,
 ];
 fn defect_name(d: Defect) -> &'static str {
     match d {
@@ -163,6 +164,7 @@ fn defect_name(d: Defect) -> &'static str {
         Defect::DuplicateCell => "duplicate-cell",
         Defect::SatelliteWithoutCells => "satellite-row-without-cells",
         Defect::CellsWithoutSatellite => "cells-without-satellite-row",
+        Defect::SatelliteSetMismatch => "same-count-different-satellite-sets",
         Defect::TooManyCells => "more-than-64-mask-cells",
         Defect::Empty => "empty-segment",
     }
@@ -239,6 +241,16 @@ pub fn oracle_defect(tc: &TypeCorpus, cons: Cons, d: Defect, seed: u64) -> Resul
             let _ = gone;
             want = "SatelliteMismatch";
         }
+        Defect::SatelliteSetMismatch => {
+            // as many satellite rows as satellites named by the cells, but one row names another satellite
+            let k = rng.below(sats.len() as u64) as usize;
+            let mut other = 1u8 + rng.below(64) as u8;
+            while sats.contains(&other) {
+                other = other % 64 + 1;
+            }
+            sats[k] = other;
+            want = "SatelliteMismatch";
+        }
         Defect::TooManyCells => {
             // every satellite and signal used, at most 64 rows in each list, but |S| x |G| > 64
             let ng2 = table.len().min(2 + rng.below(6) as usize).max(2);
@@ -305,7 +317,7 @@ pub fn run(ctx: &Ctx, replay: Option<&J>) -> CheckResult {
         covering C) and random shapes up to 64 cells (1x|G| ... 64x1, full and sparse incidence) with random raw data patterns. For each: the frame laid out bit by bit per the standard \
         (own model: mask positions from the pinned signal table, row-major cell mask, column-wise data) must decode to S ascending and C in (satellite, signal position) order; the decoded lists \
         are permuted (random / reversed / signal-major) and re-encoded: the frame must equal the standard layout byte for byte (masks, row order, data), also with off-grid data the masks must not \
-        change. Invalid inputs with exactly one defect {satellite 0/65/255, unrecognised signal, duplicate satellite, duplicate cell, satellite row without cells, cells without satellite row, \
+        change. Invalid inputs with exactly one defect {satellite 0/65/255, unrecognised signal, duplicate satellite, duplicate cell, satellite row without cells, cells without satellite row, equally many rows and cell satellites but different sets, \
         >64 mask cells} must be refused with exactly the matching error; the empty segment encodes as zero masks. non-trivial = |C|>=2 and input order != canonical, or an invalid-class input; \
         distinct = hash(spec, permutation)"
         .to_string();
